@@ -282,7 +282,62 @@ def sweep_c08(tier, seed):
             cases += 1
             f = run_pair(MSTDP, pre, post, ds, 3, 1.0, 0.5, -0.3, 12.0, 9.0, "cumulative", delayed=delayed, check_parts=False, step=lambda tr: tr(1.0, 1.0))
             add(None if f is None else dict(f, what=f["what"].replace("/MSTDP/pair_sum", "/MSTDP/pair_sum_with_delays")))
+    fd, nd = trainer_defaults(only=("STDP", "MSTDP", "MSTDPET"), prefix="C08")
+    failures.extend(fd)
+    cases += nd
     return failures, cases
+
+
+def trainer_defaults(only=None, prefix="C18"):
+    """real constructors with documented positional hyper-parameters: the per-cell state built by the real
+    _build_cell_state carries each value under its own name and the documented default batch reduction (mean for the
+    two-factor rules, sum for the reward-modulated ones) unless one is configured"""
+    import inferno.learn as TR
+    from inferno.functional import exp_stdp_post_kernel, exp_stdp_pre_kernel
+
+    table = {
+        "STDP": (["lr_post", "lr_pre", "tc_post", "tc_pre"], torch.mean),
+        "MSTDP": (["lr_post", "lr_pre", "tc_post", "tc_pre"], torch.sum),
+        "MSTDPET": (["lr_post", "lr_pre", "tc_post", "tc_pre", "tc_eligibility"], torch.sum),
+        "DelayAdjustedSTDP": (["lr_pos", "lr_neg", "tc_pos", "tc_neg"], torch.mean),
+        "DelayAdjustedSTDPD": (["lr_neg", "lr_pos", "tc_neg", "tc_pos"], torch.mean),
+        "DelayAdjustedMSTDP": (["lr_pos", "lr_neg", "tc_pos", "tc_neg"], torch.sum),
+        "DelayAdjustedMSTDPD": (["lr_neg", "lr_pos", "tc_neg", "tc_pos"], torch.sum),
+        "KernelSTDP": (None, torch.mean),
+        "DelayAdjustedKernelSTDP": (None, torch.mean),
+        "DelayAdjustedKernelSTDPD": (None, torch.mean),
+    }
+    fails, n = [], 0
+    for cls, (names, red) in table.items():
+        if only and cls not in only:
+            continue
+        C = getattr(TR, cls, None)
+        if C is None:
+            continue
+        n += 1
+        if names is None:
+            args = [exp_stdp_post_kernel, exp_stdp_pre_kernel, dict(learning_rate=0.5, time_constant=10.0), dict(learning_rate=-0.25, time_constant=12.0)]
+            vals = {}
+        else:
+            vals = {nm: (0.5 + 0.125 * i if nm.startswith("lr_") else 10.0 + i) for i, nm in enumerate(names)}
+            args = [vals[nm] for nm in names]
+        try:
+            tr = C(*args)
+            st = tr._build_cell_state()
+        except Exception as e:  # noqa: BLE001
+            fails.append({"what": f"{prefix}/defaults/{cls}/constructor", "input": dict(trainer=cls), "expected": "constructs", "actual": f"{type(e).__name__}: {e}"})
+            continue
+        if st.batchreduce is not red:
+            fails.append({"what": f"{prefix}/defaults/{cls}/batch_reduction", "input": dict(trainer=cls), "expected": red.__name__, "actual": getattr(st.batchreduce, "__name__", str(st.batchreduce))})
+        for nm, v in vals.items():
+            got = getattr(st, nm, None)
+            if got is None or abs(float(got) - v) > 1e-12:
+                fails.append({"what": f"{prefix}/defaults/{cls}/{nm}", "input": dict(trainer=cls), "expected": v, "actual": got})
+                break
+        custom = lambda x, dim=None, keepdim=False: x.sum(dim, keepdim=keepdim)  # noqa: E731
+        if C(*args, batch_reduction=custom)._build_cell_state().batchreduce is not custom or tr._build_cell_state(batch_reduction=custom).batchreduce is not custom:
+            fails.append({"what": f"{prefix}/defaults/{cls}/configured_reduction_ignored", "input": dict(trainer=cls), "expected": "custom", "actual": "other"})
+    return fails, n
 
 
 def sweep_c18(tier, seed):
@@ -297,6 +352,9 @@ def sweep_c18(tier, seed):
                 f = run_da(pre, post, ds, 2.0, 1.0, signs[0], signs[1], 15.0, 11.0, override=override)
                 if f is not None and not any(x["what"] == f["what"] for x in failures):
                     failures.append(f)
+    fd, nd = trainer_defaults(only=("DelayAdjustedSTDP", "DelayAdjustedSTDPD", "DelayAdjustedMSTDP", "DelayAdjustedMSTDPD", "KernelSTDP", "DelayAdjustedKernelSTDP", "DelayAdjustedKernelSTDPD"))
+    failures.extend(fd)
+    cases += nd
     return failures, cases
 
 
